@@ -41,6 +41,40 @@ def check_memory(c):
     return devs, calls
 
 
+def check_memory_set_width(c):
+    """The documented ``max_bit_width`` setter: set before first use (any width) or widened in mid-sequence; from then on the
+    provider counts modulo 2^(new width)."""
+    seqcount, PacketSeqCtrl, SequenceFlags = _m()
+    devs = []
+    p = seqcount.SeqCountProvider(c["w0"])
+    expect = 0
+    width = c["w0"]
+    for n in range(c["calls"]):
+        if n == c["at"]:
+            p.max_bit_width = c["w1"]
+            width = c["w1"]
+            eq(devs, "memory.set_width.getter", p.max_bit_width, c["w1"])
+        v = next(p)
+        if v != expect:
+            devs.append(Dev("memory.set_width.sequence", f"constructed with width {c['w0']}, set to {c['w1']} before call {c['at']}: call {n} returned {v}, want {expect}"))
+            break
+        expect = (expect + 1) % (1 << width)
+    return devs, c["calls"]
+
+
+def enum_memory_set_width(tier, shard, nshards, rng):
+    i = 0
+    for w0 in (1, 2, 3, 5, 8, 14):
+        for w1 in (1, 2, 3, 4, 6, 9, 14):
+            if w1 == w0:
+                continue
+            ats = [0] if w1 < w0 else [0, 1, (1 << w0) - 1, (1 << w0), (1 << w0) + 1]
+            for at in ats:
+                i += 1
+                if i % nshards == shard and max(w0, w1) <= (14 if tier == "thorough" else 9):
+                    yield {"w0": w0, "w1": w1, "at": at, "calls": at + (1 << w1) + 3}
+
+
 def enum_memory(tier, shard, nshards, rng):
     widths = range(1, 17) if tier == "thorough" else list(range(1, 13)) + [14]
     i = 0
@@ -196,8 +230,11 @@ def check_file_long(c):
             m._one(s, devs, n % 2 == 0)
             if devs:
                 return [Dev(d.sub, f"call {n}: {d.detail}") for d in devs]
-            if n % 97 == 0 or n in restarts or s.model in (0, 1):
+            if n % 97 == 0 or n in restarts or s.model in (0, 1, 2, 10, 100):
                 devs = m.invariant(s)
+                # current() - on the running provider and on one created right now - reads the next value without advancing
+                eq(devs, "file.current", s.p.current(), s.model, "current() between calls")
+                eq(devs, "file.current_fresh_instance", s.new_provider().current(), s.model, "current() of a provider created at this point")
                 if devs:
                     return [Dev(d.sub, f"after call {n}: {d.detail}") for d in devs]
         return devs, c["calls"]
@@ -212,6 +249,9 @@ def enum_file_long(tier, shard, nshards, rng):
         cases.append({"width": w, "start": None, "calls": calls, "restarts": sorted(rng.sample(range(calls), min(calls, 6)))})
         cases.append({"width": w, "start": None, "calls": calls, "restarts": list(range(calls))})
     cases.append({"width": 14, "start": 16380, "pus": True, "calls": 12, "restarts": [0, 3, 4, 5]})
+    # wrap-arounds at which the decimal representation of the count shrinks by one, two, three and four characters
+    for w in (4, 7, 10, 14, 16):
+        cases.append({"width": w, "start": (1 << w) - 3, "calls": 16, "restarts": [2, 3, 4, 9]})
     if tier == "thorough":
         calls = (1 << 14) + 3
         for k in range(4):
@@ -294,6 +334,16 @@ CLAUSES = [
         exhaustive_note="for each width (quick: 1..12 and 14; thorough: 1..16) the only history there is: 2^w + 3 consecutive calls (next is the only operation)",
     ),
     Clause(
+        id="C19.memory.set_width",
+        doc="in-memory provider whose width is changed through the documented max_bit_width setter (before first use: any width; in mid-sequence: widened): counts modulo 2^(new width) from then on",
+        kind="enum",
+        enum=enum_memory_set_width,
+        check=check_memory_set_width,
+        classify=lambda c: ["narrowed before first use" if c["w1"] < c["w0"] else ("widened before first use" if c["at"] == 0 else "widened in mid-sequence")],
+        required=["narrowed before first use", "widened before first use", "widened in mid-sequence"],
+        shards={"quick": 2, "thorough": 8},
+    ),
+    Clause(
         id="C19.file.machine",
         doc="file-backed provider as a rule-based machine: next / get_and_increment / burst / current / reinstantiate (restart point) / inspect_file; file holds the next value between calls",
         kind="history",
@@ -310,7 +360,7 @@ CLAUSES = [
         enum=enum_file_long,
         check=check_file_long,
         classify=lambda c: [f"width {c['width']}"] + (["restart at every call"] if len(c["restarts"]) == c["calls"] else []),
-        required=["width 14", "restart at every call"],
+        required=["width 14", "width 7", "width 16", "restart at every call"],
         shards={"quick": 4, "thorough": 16},
     ),
     Clause(
